@@ -333,7 +333,9 @@ class GriffeLoader:
 
         # First we expand wildcard imports and store the objects in a temporary `expanded` variable,
         # while also keeping track of the members representing wildcard import, to remove them later.
-        for member in obj.members.values():
+        # We iterate on a copy of the members: loading a package (below) expands its own wildcards,
+        # which can lead back to this object and change its members.
+        for member in list(obj.members.values()):
             # Handle a wildcard.
             if member.is_alias and member.wildcard:  # type: ignore[union-attr]
                 package = member.wildcard.split(".", 1)[0]  # type: ignore[union-attr]
@@ -347,6 +349,10 @@ class GriffeLoader:
                         self.load(package, try_relative_path=False)
                     except (ImportError, LoadingError) as error:
                         logger.debug("Could not expand wildcard import %s in %s: %s", member.name, obj.path, error)
+                        continue
+                    # The wildcards of the loaded package got expanded: if they lead back to this object,
+                    # this wildcard import was expanded already.
+                    if obj.members.get(member.name) is not member:
                         continue
 
                 # Try getting the module from which every public object is imported.
@@ -383,7 +389,9 @@ class GriffeLoader:
 
         # Then we remove the members representing wildcard imports.
         for name in to_remove:
-            obj.del_member(name)
+            # A wildcard import can have been expanded (and removed) already, while loading a package above.
+            if name in obj.members:
+                obj.del_member(name)
 
         # Finally we process the collected objects.
         for new_member, alias_lineno, alias_endlineno in expanded:
@@ -465,7 +473,9 @@ class GriffeLoader:
         seen = seen or set()
         seen.add(obj.path)
 
-        for member in obj.members.values():
+        # We iterate on a copy of the members: loading a package (below) expands its wildcards,
+        # which can lead back to this object and change its members.
+        for member in list(obj.members.values()):
             # Handle aliases.
             if member.is_alias:
                 if member.wildcard or member.resolved:  # type: ignore[union-attr]
